@@ -11,6 +11,7 @@ import (
 	"github.com/cloudwego/dynamicgo/conv/j2t"
 	"github.com/cloudwego/dynamicgo/conv/t2j"
 	"github.com/cloudwego/dynamicgo/thrift"
+	"github.com/cloudwego/gopkg/protocol/thrift/base"
 
 	"verifharness/gen"
 	"verifharness/h"
@@ -293,5 +294,119 @@ func runJSConvT2J(c *h.Ctx) {
 		}
 		cs.Cover("js_conv_t2j_ok")
 		cs.Distinct(fmt.Sprintf("jsc-%v-%s", mapping, shapeKey(v)[:min(len(shapeKey(v)), 14)]))
+	})
+}
+
+// ---- EnableThriftBase (response base extracted into the context) and ConvertException -------------------
+
+const c03BaseIDL = `namespace go verif
+include "base.thrift"
+exception Err { 1: i32 code, 2: string msg }
+struct Resp { 1: string Msg, 2: i32 Code, 255: base.BaseResp BaseResp, 3: optional list<i64> L }
+struct Req { 1: string A }
+service S { Resp M(1: Req r) throws (1: Err e) }
+`
+
+func runBaseExceptionT2J(c *h.Ctx) {
+	var fn *thrift.FunctionDescriptor
+	c.Run("base-exception", c.N(1500, 40000), func(cs *h.Case) {
+		if fn == nil {
+			o := thrift.Options{EnableThriftBase: true}
+			svc, err := o.NewDescritorFromContent(context.Background(), "main.thrift", c03BaseIDL, map[string]string{"main.thrift": c03BaseIDL, "base.thrift": gen.TBaseIDL}, false)
+			if err != nil {
+				cs.Viol("t2j:base:parse-idl", "err", err)
+				return
+			}
+			fn, _ = svc.LookupFunctionByMethod("M")
+		}
+		respDesc := fn.Response().Struct().FieldById(0).Type()
+		msg := string(gen.GenStr(cs.R, gen.ValCfg{PlainStr: true}))
+		code := int32(gen.GenInt(cs.R, tref.I32))
+		status := string(gen.GenStr(cs.R, gen.ValCfg{PlainStr: true}))
+		scode := int32(gen.GenInt(cs.R, tref.I32))
+		extra := &tref.Val{T: tref.MAP, KT: tref.STRING, ET: tref.STRING}
+		wantExtra := map[string]string{}
+		for k := cs.R.Intn(3); k > 0; k-- {
+			key := fmt.Sprintf("k%d", k)
+			val := string(gen.GenStr(cs.R, gen.ValCfg{PlainStr: true}))
+			extra.K = append(extra.K, tref.Str(key))
+			extra.L = append(extra.L, tref.Str(val))
+			wantExtra[key] = val
+		}
+		br := tref.Struct(tref.Field{ID: 1, V: tref.Str(status)}, tref.Field{ID: 2, V: tref.Int32(scode)})
+		if len(extra.L) > 0 {
+			br.Fs = append(br.Fs, tref.Field{ID: 3, V: extra})
+		}
+		resp := tref.Struct(tref.Field{ID: 1, V: tref.Str(msg)}, tref.Field{ID: 255, V: br}, tref.Field{ID: 2, V: tref.Int32(code)})
+		mode := cs.R.Intn(4)
+		ctx := context.Background()
+		switch mode {
+		case 0, 1: // base extracted into the context object
+			obj := base.NewBaseResp()
+			ctx = context.WithValue(ctx, conv.CtxKeyThriftRespBase, obj)
+			cv := t2j.NewBinaryConv(conv.Options{EnableThriftBase: true})
+			tr := h.TrapCopy(tref.Encode(resp), cs.R.Bool(), true)
+			defer tr.Free()
+			out, err := cv.Do(ctx, respDesc, tr.B)
+			if err != nil {
+				cs.Viol("t2j:base:error-on-domain", "err", err)
+				return
+			}
+			j, perr := ParseJSON(out)
+			if perr != nil || j.K != 'o' {
+				cs.Viol("t2j:base:malformed-json", "out", trunc(string(out)))
+				return
+			}
+			if strings.Join(j.Keys, ",") != "Msg,Code" || j.Vals[0].S != replaceInvalidUTF8([]byte(msg)) || j.Vals[1].N != strconv.FormatInt(int64(code), 10) {
+				cs.Viol("t2j:base:body-members", "out", trunc(string(out)), "want-keys", "Msg,Code")
+				return
+			}
+			okExtra := len(obj.Extra) == len(wantExtra)
+			for k, v := range wantExtra {
+				if obj.Extra[k] != v {
+					okExtra = false
+				}
+			}
+			if obj.StatusMessage != status || obj.StatusCode != scode || !okExtra {
+				cs.Viol("t2j:base:context-object", "got", fmt.Sprintf("%q %d %v", obj.StatusMessage, obj.StatusCode, obj.Extra), "want", fmt.Sprintf("%q %d %v", status, scode, wantExtra))
+				return
+			}
+			cs.Cover("base_extracted_ok")
+		case 2: // no object in the context: the base field is an ordinary member
+			cv := t2j.NewBinaryConv(conv.Options{EnableThriftBase: cs.R.Bool()})
+			out, err := cv.Do(ctx, respDesc, tref.Encode(resp))
+			if err != nil {
+				cs.Viol("t2j:base:error-on-domain", "err", err)
+				return
+			}
+			j, perr := ParseJSON(out)
+			if perr != nil || j.K != 'o' || strings.Join(j.Keys, ",") != "Msg,BaseResp,Code" {
+				cs.Viol("t2j:base:plain-members", "out", trunc(string(out)))
+				return
+			}
+			b := j.Vals[1]
+			if b.K != 'o' || len(b.Keys) < 2 || b.Vals[0].S != replaceInvalidUTF8([]byte(status)) || b.Vals[1].N != strconv.FormatInt(int64(scode), 10) {
+				cs.Viol("t2j:base:plain-base-value", "out", trunc(string(out)))
+				return
+			}
+			cs.Cover("base_as_plain_member_ok")
+		default: // exception field of the response wrapper
+			ecode := int32(gen.GenInt(cs.R, tref.I32))
+			emsg := string(gen.GenStr(cs.R, gen.ValCfg{PlainStr: true}))
+			wrapper := tref.Struct(tref.Field{ID: 1, V: tref.Struct(tref.Field{ID: 1, V: tref.Int32(ecode)}, tref.Field{ID: 2, V: tref.Str(emsg)})})
+			cv := t2j.NewBinaryConv(conv.Options{ConvertException: true})
+			out, err := cv.Do(ctx, fn.Response(), tref.Encode(wrapper))
+			if err == nil {
+				cs.Viol("t2j:exception:no-error", "out", trunc(string(out)))
+				return
+			}
+			j, perr := ParseJSON([]byte(err.Error()))
+			if perr != nil || j.K != 'o' || strings.Join(j.Keys, ",") != "code,msg" || j.Vals[0].N != strconv.FormatInt(int64(ecode), 10) || j.Vals[1].S != replaceInvalidUTF8([]byte(emsg)) {
+				cs.Viol("t2j:exception:error-text", "err", trunc(err.Error()), "want", fmt.Sprintf("code=%d msg=%q", ecode, emsg))
+				return
+			}
+			cs.Cover("exception_converted_ok")
+		}
+		cs.Distinct(fmt.Sprintf("be-%d-%d-%d", mode, len(msg)%7, len(extra.L)))
 	})
 }
